@@ -267,10 +267,14 @@ func PrunePathValues(paths []*configapi.PathValue, leaveTopDeletedPaths bool) []
 
 	prunedPaths := make([]*configapi.PathValue, 0, len(sortedPaths))
 	deletingPrefix := ""
+	// A tombstone only covers what existed when it was written: values written beneath it by a later transaction
+	// (a higher index) are not part of the deleted subtree
+	var deletingIndex configapi.Index
 	for _, pv := range sortedPaths {
 		// If this path is marked as deleted and we're already not deleting this subtree, start deleting
-		if pv.Deleted && (len(deletingPrefix) == 0 || !isSameOrChildPath(pv.Path, deletingPrefix)) {
+		if pv.Deleted && (len(deletingPrefix) == 0 || !(isSameOrChildPath(pv.Path, deletingPrefix) && pv.Index <= deletingIndex)) {
 			deletingPrefix = pv.Path
+			deletingIndex = pv.Index
 
 			// If we're asked to leave behind the top deleted node of a sub-tree, add it here
 			if leaveTopDeletedPaths {
@@ -280,7 +284,7 @@ func PrunePathValues(paths []*configapi.PathValue, leaveTopDeletedPaths bool) []
 
 		// If we're not currently deleting or if the node is not part of the sub-tree, add it and cancel deletion
 		// since we have left the sub-tree.
-		if len(deletingPrefix) == 0 || !isSameOrChildPath(pv.Path, deletingPrefix) {
+		if len(deletingPrefix) == 0 || !(isSameOrChildPath(pv.Path, deletingPrefix) && pv.Index <= deletingIndex) {
 			prunedPaths = append(prunedPaths, pv)
 			deletingPrefix = ""
 		}
